@@ -178,8 +178,8 @@ func validate(k string) error {
 	if strings.ContainsAny(k, `!@#$%^&*()+={}[] :;"',.<>?/\|~`) {
 		return errors.New(`cannot contain: !@#$%^&*()+={}[] :;"',.<>?/\|~`)
 	}
-	if strings.ContainsRune(k, 0) {
-		return errors.New(`cannot contain a NUL byte`)
+	if strings.ContainsAny(k, "\x00\t\n\r") {
+		return errors.New(`cannot contain control characters`)
 	}
 	if strings.HasPrefix(k, "_") || strings.HasPrefix(k, "-") {
 		return errors.New(`cannot start with _-`)
